@@ -47,6 +47,7 @@ type profile struct {
 	width      int
 	policies   []string
 	targets    []string
+	posTotals  bool // only positive totals
 }
 
 var baseProfile = profile{
@@ -122,7 +123,7 @@ func genMixed(seed uint64, fam string, pf profile) *Scenario {
 	rowsBudget := sc.Width - 4
 	for i := 0; i < n; i++ {
 		total := int64(r.Pick(1, 5, 10, 100, 1000))
-		if r.Chance(1, 8) {
+		if r.Chance(1, 8) && !pf.posTotals {
 			total = int64(r.Pick(0, -1))
 		}
 		b := g.plainBar(total)
@@ -293,6 +294,18 @@ func genMixed(seed uint64, fam string, pf profile) *Scenario {
 func genFor(prop, part string, seed uint64) *Scenario {
 	pf := baseProfile
 	switch prop {
+	case "C17":
+		return genC17(seed, part)
+	case "C06":
+		return genC06(seed, part)
+	case "C12":
+		return genC12(seed, part)
+	case "C11":
+		return genC11(seed, part)
+	case "C15":
+		return genC15(seed, part)
+	case "C04", "C18":
+		return genC04(seed, part, prop)
 	case "C01":
 		pf.nBars = []int{0, 1, 2, 3, 5, 8, 17, 40}
 		pf.late = false
@@ -438,6 +451,20 @@ func oracleFor(prop string, a *analysis) verdict {
 		return a.oracleC14()
 	case "C16":
 		return a.oracleC16()
+	case "C04":
+		return a.oracleC04()
+	case "C06":
+		return a.oracleC06()
+	case "C11":
+		return a.oracleC11()
+	case "C12":
+		return a.oracleC12()
+	case "C15":
+		return a.oracleC15()
+	case "C17":
+		return a.oracleC17()
+	case "C18":
+		return a.oracleC18()
 	}
 	return inconclusive("no oracle")
 }
